@@ -1,15 +1,15 @@
 """C03: see DESIGN.md section 3 C03."""
-from _ccmon import standard_plan, layout_steps, floor_msgs, COMMON_ASSUMPTIONS, EVOLVE_NOTE
+from _ccmon import standard_plan, layout_steps, floor_msgs, COMMON_ASSUMPTIONS, EVOLVE_NOTE, FAULT_NOTE
 
 LEVEL = "exploration"
 RULE = 'histories are generated per shard from (seed, index) by harness/src/gen.rs (weights of mode C03: try_unwrap, new_cyclic and weak traffic raised; every allocation event of the crate is matched alloc -> drop -> dealloc) plus the directed corpus harness/src/directed.rs; each is executed against the real crate with all oracles on, followed by an epilogue that releases everything and collects until quiet. distinct = distinct expanded operation lists (FNV hash); plus the layout grid harness/src/bin/layouts.rs: 48 payload layouts (size {0,1,3,8,24,100,1000,4096} x alignment {1,2,8,64,512,4096}, each its own monomorphisation) x up to 10 scenarios (plain drop, collected cycle, try_unwrap fresh / buffered / shared / with side record / with a live Weak / after resurrection, Weak outliving the value, new_cyclic, new_cyclic whose closure panics), enumerated; histories are non-trivial iff both reclamation paths (plain drop and collector) occurred and (with weak-ptrs) at least one weak side record was allocated'
-RULE += EVOLVE_NOTE
+RULE += EVOLVE_NOTE + FAULT_NOTE
 ASSUMPTIONS = COMMON_ASSUMPTIONS
 FLOORS = {'scenarios': 400, 'zst_scenarios': 20, 'overaligned_scenarios': 100, 'allocator_tracked_frees': 10000, 'objects_reclaimed_by_refcount': 1000, 'objects_reclaimed_by_collector': 500}
 
 
 def plan(ctx):
-    return standard_plan(ctx, "C03", mode="C03") + layout_steps(ctx, "C03", ctx.quick)
+    return standard_plan(ctx, "C03", mode="C03", after_faults=True) + layout_steps(ctx, "C03", ctx.quick)
 
 
 def floors(ctx, evaluations, distinct, counters, sets):
